@@ -417,7 +417,9 @@ class Visitor:
         property_function = self.get_base_property(decorators, function)
 
         if overload:
-            self.current.overloads[function.name].append(function)
+            # Overloads are only collected in modules and classes, not in `__init__` methods.
+            if self.current.kind in {Kind.MODULE, Kind.CLASS}:
+                self.current.overloads[function.name].append(function)
         elif property_function:
             base_property: Attribute = self.current.members[node.name]  # type: ignore[assignment]
             if property_function == "setter":
